@@ -188,7 +188,8 @@ class TypeRef:
 
 
 class Program:
-    def __init__(self, repo: str) -> None:
+    def __init__(self, repo: str, normalise: bool = True) -> None:
+        self.normalise = normalise
         self.repo = os.path.abspath(repo)
         self.src = os.path.join(self.repo, "src")
         self.modules: dict[str, ModuleInfo] = {}
@@ -225,12 +226,50 @@ class Program:
             raise AnalysisError(
                 f"only {len(self.modules)} modules parsed under src/{PKG}, confirmed floor is {MODULE_FLOOR}"
             )
-        for mod in self.modules.values():
-            self._index_module(mod)
+        self._reindex()
         if len(self.functions) < FUNCTION_FLOOR:
             raise AnalysisError(
                 f"only {len(self.functions)} functions indexed, confirmed floor is {FUNCTION_FLOOR}"
             )
+        self.normalisation_log: list[str] = []
+        self.absorbed: set[str] = set()
+        if self.normalise:
+            self._normalise()
+
+    def _reindex(self) -> None:
+        self.functions = {}
+        self.classes = {}
+        self.func_of_node = {}
+        self.__dict__.pop("_callee_memo", None)
+        for mod in self.modules.values():
+            set_parents(mod.tree)
+            mod.imports, mod.classes, mod.functions, mod.assigns = {}, {}, {}, {}
+            self._index_module(mod)
+
+    def _normalise(self) -> None:
+        """Role-based attribute names, then inlining of non-anchor private helpers (hwverif.normalize)."""
+        from .normalize import apply_renames, flatten_program, role_renames
+
+        ren = role_renames(self)
+        if ren:
+            self.normalisation_log += ["attribute " + x for x in apply_renames(self, ren)]
+            self._reindex()
+        for _round in range(2):
+            new_bodies, inl = flatten_program(self)
+            if not new_bodies:
+                break
+            for q, body in new_bodies.items():
+                self.functions[q].node.body = body
+            self.normalisation_log += inl.log
+            absorbed = {q for q, n in inl.inlined_sites.items() if n > 0 and inl.opaque_sites.get(q, 0) == 0}
+            self._reindex()
+            self.absorbed |= {q for q in absorbed if q in self.functions}
+            break
+
+    def scan_functions(self):
+        """Functions for whole-package scans: helpers whose every call site was inlined are analysed
+        as part of their callers and skipped here."""
+        return [f for q, f in self.functions.items() if q not in self.absorbed]
 
     def _index_module(self, mod: ModuleInfo) -> None:
         for node in ast.walk(mod.tree):
@@ -512,15 +551,38 @@ class Program:
             return TypeRef(self_cls.qualname)
         return TypeRef(r) if r else None
 
+    def _local_tables(self, fi: FunctionInfo) -> tuple[dict, dict]:
+        """(name -> annotation expr, name -> [value exprs]) of one function, computed once."""
+        cached = getattr(fi, "_ltables", None)
+        if cached is not None:
+            return cached
+        anns: dict[str, ast.expr] = {}
+        vals: dict[str, list[ast.expr]] = {}
+        for p in fi.params():
+            if p.annotation is not None:
+                anns.setdefault(p.arg, p.annotation)
+        for n in fi.own_nodes():
+            if isinstance(n, ast.AnnAssign) and isinstance(n.target, ast.Name):
+                anns.setdefault(n.target.id, n.annotation)
+                if n.value is not None:
+                    vals.setdefault(n.target.id, []).append(n.value)
+            elif isinstance(n, ast.Assign):
+                for t in n.targets:
+                    if isinstance(t, ast.Name):
+                        vals.setdefault(t.id, []).append(n.value)
+            elif isinstance(n, ast.NamedExpr):
+                vals.setdefault(n.target.id, []).append(n.value)
+            elif isinstance(n, ast.MatchAs) and n.name and isinstance(n.pattern, ast.MatchClass):
+                vals.setdefault(n.name, []).append(ast.Call(func=n.pattern.cls, args=[], keywords=[]))
+        fi._ltables = (anns, vals)  # type: ignore[attr-defined]
+        return anns, vals
+
     def _local_annotation(self, fi: FunctionInfo, name: str) -> tuple[FunctionInfo, ast.expr] | None:
         cur: FunctionInfo | None = fi
         while cur is not None:
-            for p in cur.params():
-                if p.arg == name and p.annotation is not None:
-                    return cur, p.annotation
-            for n in cur.own_nodes():
-                if isinstance(n, ast.AnnAssign) and isinstance(n.target, ast.Name) and n.target.id == name:
-                    return cur, n.annotation
+            anns, _ = self._local_tables(cur)
+            if name in anns:
+                return cur, anns[name]
             if name in self.local_names(cur):
                 return None
             cur = cur.outer
@@ -529,21 +591,9 @@ class Program:
     def _local_value(self, fi: FunctionInfo, name: str) -> tuple[FunctionInfo, list[ast.expr]] | None:
         cur: FunctionInfo | None = fi
         while cur is not None:
-            vals: list[ast.expr] = []
-            for n in cur.own_nodes():
-                if isinstance(n, ast.Assign):
-                    for t in n.targets:
-                        if isinstance(t, ast.Name) and t.id == name:
-                            vals.append(n.value)
-                elif isinstance(n, ast.NamedExpr) and n.target.id == name:
-                    vals.append(n.value)
-                elif isinstance(n, ast.AnnAssign) and isinstance(n.target, ast.Name) and n.target.id == name:
-                    if n.value is not None:
-                        vals.append(n.value)
-                elif isinstance(n, ast.MatchAs) and n.name == name and isinstance(n.pattern, ast.MatchClass):
-                    vals.append(ast.Call(func=n.pattern.cls, args=[], keywords=[]))
-            if vals:
-                return cur, vals
+            _, vals = self._local_tables(cur)
+            if vals.get(name):
+                return cur, vals[name]
             if name in self.local_names(cur):
                 return None
             cur = cur.outer
